@@ -30,7 +30,7 @@ def selected_altitude(msg: str) -> tuple[None | float, str]:
 
     subtype = common.bin2int(mb[5:7])
 
-    if subtype == 0:
+    if subtype != 1:
         raise RuntimeError(
             "%s: ADS-B version 1 target state and status message does not"
             " contain selected altitude, use target altitude instead" % msg
@@ -68,7 +68,7 @@ def target_altitude(msg: str) -> tuple[None | int, str, str]:
 
     subtype = common.bin2int(mb[5:7])
 
-    if subtype == 1:
+    if subtype != 0:
         raise RuntimeError(
             "%s: ADS-B version 2 target state and status message does not"
             " contain target altitude, use selected altitude instead" % msg
@@ -117,7 +117,7 @@ def vertical_mode(msg: str) -> None | int:
 
     subtype = common.bin2int(mb[5:7])
 
-    if subtype == 1:
+    if subtype != 0:
         raise RuntimeError(
             "%s: ADS-B version 2 target state and status message does not"
             " contain vertical mode, use vnav mode instead" % msg
@@ -156,7 +156,7 @@ def horizontal_mode(msg: str) -> None | int:
 
     subtype = common.bin2int(mb[5:7])
 
-    if subtype == 1:
+    if subtype != 0:
         raise RuntimeError(
             "%s: ADS-B version 2 target state and status message does not "
             "contain horizontal mode, use lnav mode instead" % msg
@@ -189,7 +189,7 @@ def selected_heading(msg: str) -> None | float:
 
     subtype = common.bin2int(mb[5:7])
 
-    if subtype == 0:
+    if subtype != 1:
         raise RuntimeError(
             "%s: ADS-B version 1 target state and status message does not "
             "contain selected heading, use target angle instead" % msg
@@ -226,7 +226,7 @@ def target_angle(msg: str) -> tuple[None | int, str, str]:
 
     subtype = common.bin2int(mb[5:7])
 
-    if subtype == 1:
+    if subtype != 0:
         raise RuntimeError(
             "%s: ADS-B version 2 target state and status message does not "
             "contain target angle, use selected heading instead" % msg
@@ -270,7 +270,7 @@ def baro_pressure_setting(msg: str) -> None | float:
 
     subtype = common.bin2int(mb[5:7])
 
-    if subtype == 0:
+    if subtype != 1:
         raise RuntimeError(
             "%s: ADS-B version 1 target state and status message does not "
             "contain barometric pressure setting" % msg
@@ -303,7 +303,7 @@ def autopilot(msg) -> None | bool:
 
     subtype = common.bin2int(mb[5:7])
 
-    if subtype == 0:
+    if subtype != 1:
         raise RuntimeError(
             "%s: ADS-B version 1 target state and status message does not "
             "contain autopilot engagement" % msg
@@ -337,7 +337,7 @@ def vnav_mode(msg) -> None | bool:
 
     subtype = common.bin2int(mb[5:7])
 
-    if subtype == 0:
+    if subtype != 1:
         raise RuntimeError(
             "%s: ADS-B version 1 target state and status message does not "
             "contain vnav mode, use vertical mode instead" % msg
@@ -371,7 +371,7 @@ def altitude_hold_mode(msg) -> None | bool:
 
     subtype = common.bin2int(mb[5:7])
 
-    if subtype == 0:
+    if subtype != 1:
         raise RuntimeError(
             "%s: ADS-B version 1 target state and status message does not "
             "contain altitude hold mode" % msg
@@ -405,7 +405,7 @@ def approach_mode(msg) -> None | bool:
 
     subtype = common.bin2int(mb[5:7])
 
-    if subtype == 0:
+    if subtype != 1:
         raise RuntimeError(
             "%s: ADS-B version 1 target state and status message does not "
             "contain approach mode" % msg
@@ -439,7 +439,7 @@ def lnav_mode(msg) -> None | bool:
 
     subtype = common.bin2int(mb[5:7])
 
-    if subtype == 0:
+    if subtype != 1:
         raise RuntimeError(
             "%s: ADS-B version 1 target state and status message does not "
             "contain lnav mode, use horizontal mode instead" % msg
@@ -473,6 +473,11 @@ def tcas_operational(msg) -> None | bool:
 
     subtype = common.bin2int(mb[5:7])
 
+    if subtype > 1:
+        raise RuntimeError(
+            "%s: reserved target state and status subtype %d" % (msg, subtype)
+        )
+
     if subtype == 0:
         tcas = True if int(mb[51]) == 0 else False
     else:
@@ -501,7 +506,7 @@ def tcas_ra(msg) -> bool:
 
     subtype = common.bin2int(mb[5:7])
 
-    if subtype == 1:
+    if subtype != 0:
         raise RuntimeError(
             "%s: ADS-B version 2 target state and status message does not "
             "contain TCAS/ACAS RA" % msg
@@ -543,7 +548,7 @@ def emergency_status(msg) -> int:
 
     subtype = common.bin2int(mb[5:7])
 
-    if subtype == 1:
+    if subtype != 0:
         raise RuntimeError(
             "%s: ADS-B version 2 target state and status message does not "
             "contain emergency status" % msg
